@@ -395,6 +395,7 @@ theorem workflowBody_fine (O : Oracle) {kvs : List (Key × JVal)} (sh : Workflow
   obtain ⟨t, ht, hts⟩ := sh.tasks
   unfold workflowBody
   refine fine_bind (guardDef_fine ..) (fun _ _ => ?_)
+  refine fine_bind (guardDef_fine ..) (fun _ _ => ?_)
   refine fine_bind (checkExpr_fine ..) (fun _ _ => ?_)
   refine fine_bind (checkExpr_fine ..) (fun _ _ => ?_)
   rw [getItem_fine hn]
@@ -487,7 +488,12 @@ example : (match ctorTask trivialOracle (.obj [(.s "name", .str "t1"), (.s "vers
     | .ok _ => true | _ => false) = true := by decide
 
 example : (match ctorWorkflowList trivialOracle (.obj [(.s "version", .str "2.0"),
-    (.s "wf", .obj [(.s "input", .arr [.str "a"]), (.s "tasks", .obj [(.s "version", .obj [(.s "action", .str "x")])])])]) with
+    (.s "wf", .obj [(.s "input", .arr [.str "a"]), (.s "tasks", .obj [(.s "t1", .obj [(.s "action", .str "x")])])])]) with
     | .ok _ => true | _ => false) = true := by decide
+
+/-- a task named `version` is a definition error of the workflow constructor (repo patch 27). -/
+example : (match ctorWorkflowList trivialOracle (.obj [(.s "version", .str "2.0"),
+    (.s "wf", .obj [(.s "tasks", .obj [(.s "version", .obj [(.s "action", .str "x")])])])]) with
+    | .defErr _ => true | _ => false) = true := by decide
 
 end Mistral.Props.C14Ctor
